@@ -211,6 +211,46 @@ Definition iadd (t x : val) : M val :=
       end))
   end.
 
+(* t + x (out of place), evaluated when numpy refused `t += x` with a TypeError (UFuncTypeError: the sum does not fit
+   the dtype of t, i.e. a complex contribution onto a non-complex array): a FRESH array (numpy scalar when everything is
+   0-d) of the promoted dtype holding t + x; t's buffer is only read.  A 0-d t takes the shape of x; otherwise x is a
+   scalar, 0-d or of t's shape (general broadcasting is not modelled: ValueError, as for +=). *)
+Definition oadd (t x : val) : M val :=
+  match t with
+  | VWin r ix shp =>
+      bind (mcplx r) (fun tcx => bind (mread r ix) (fun cur =>
+      match x with
+      | VNone => fail ETypeError
+      | VScal c' cx' _ =>
+          match shp with
+          | [] => ret (VScal (cadd (hd c0 cur) c') (tcx || cx') true)
+          | _ => new_array (map (fun a => cadd a c') cur) (tcx || cx') shp
+          end
+      | VWin r' ix' shp' =>
+          bind (mread r' ix') (fun d => bind (mcplx r') (fun cx' =>
+          match shp', shp with
+          | [], [] => ret (VScal (cadd (hd c0 cur) (hd c0 d)) (tcx || cx') true)
+          | [], _ => new_array (map (fun a => cadd a (hd c0 d)) cur) (tcx || cx') shp
+          | _, [] => new_array (map (cadd (hd c0 cur)) d) (tcx || cx') shp'
+          | _, _ => if negb (Zl_eqb shp' shp) then fail EValueError
+                    else new_array (map2 cadd cur d) (tcx || cx') shp
+          end))
+      end))
+  | _ => fail ETypeError             (* scalars never refuse += ; None + x *)
+  end.
+
+(* try: m   except TypeError: h *)
+Definition catch_type {A} (m h : M A) : M A :=
+  fun w => match m w with
+           | (w', Er ETypeError) => h w'
+           | q => q
+           end.
+
+(* Signal.add_sensitivity, accumulate branch (F37):
+     try: self.sensitivity += ds
+     except TypeError: self.sensitivity = self.sensitivity + ds *)
+Definition iadd_promote (t x : val) : M val := catch_type (iadd t x) (oadd t x).
+
 (* ---------------------------------------------------------------- Signal / SignalSlice *)
 Definition get_root (i : nat) : M rootsig := fun w => (w, Ok (nth i (roots w) root0)).
 Definition put_root (i : nat) (rs : rootsig) : M unit := fun w => (set_roots w (upd (roots w) i rs), Ok tt).
@@ -257,7 +297,7 @@ Definition add_se (i : nat) (p : list slc) (ds : val) : M unit :=
   | [] =>
       bind (get_se i []) (fun cur =>
       if is_none cur then bind (deepcopy ds) (fun c => set_se i [] c)
-      else bind (iadd cur ds) (fun t => set_se i [] t))
+      else bind (iadd_promote cur ds) (fun t => set_se i [] t))
   | s :: p' =>
       bind (get_se i p') (fun bs =>
       bind (if is_none bs
